@@ -278,6 +278,15 @@ def classify(divs):
 # ---------------------------------------------------------------------------------------------
 # evidence / verdict
 # ---------------------------------------------------------------------------------------------
+def _by_operator(stats):
+    out = {}
+    for key, n in stats.get("sub_cmp", {}).items():
+        out.setdefault(key.split("/")[0], [0, 0])[0] += n
+    for key, n in stats.get("sub_open", {}).items():
+        out.setdefault(key.split("/")[0], [0, 0])[1] += n
+    return out
+
+
 class Report:
     def __init__(self, pid, tier, seed):
         self.pid, self.tier, self.seed = pid, tier, seed
@@ -322,11 +331,18 @@ class Report:
                            "open": stats.get("open", 0), "by_op": stats.get("by_op", {}),
                            "refused_ops": stats.get("refused_ops", {}), "divergences": len(divs),
                            "level2_strides_agree": stats.get("l2_agree", 0), "level2_strides_differ": stats.get("l2_differ", 0),
+                           # per substituted operator: computed values compared / left open (no oracle), summed over element types
+                           "operator_values": _by_operator(stats),
                            # circumstance tags: executions in which each occurred / compared to the end and agreed / diverged
                            "circumstances": {t: [n, stats.get("tag_pass", {}).get(t, 0), stats.get("tag_div", {}).get(t, 0)]
                                              for t, n in sorted(stats.get("tag_n", {}).items())}})
 
     def finish(self):
+        # vacuity guard: an operator every computed value of which was left open by the evaluator has no oracle
+        for part in self.parts:
+            for op, (cmp_n, open_n) in (part.get("operator_values") or {}).items():
+                if cmp_n == 0 and open_n > 0:
+                    raise Infra("vacuous oracle: no value of operator %s was compared in %s (%d left open)" % (op, part.get("replay"), open_n))
         viol, known, kfs = classify(self.divs)
         outdir = os.path.join(OUT, self.pid)
         shutil.rmtree(outdir, ignore_errors=True)
